@@ -370,6 +370,127 @@ void lifting_dfs(const std::vector<HOp> &A, DomBox &lifted, DomBox &base, int de
 
 } // namespace
 
+// ---- meet of difference constraints over FOUR variables ---------------------------------------
+// The closure after a meet walks alternating paths between the edges of the two operands; the
+// shortest such shapes need four variables, one more than the language enumeration above uses.
+// Oracle: Floyd-Warshall on the union of the constraints (exact for integer difference constraints).
+struct DC { int i, j; long c; }; // v_i - v_j <= c
+const int M4V[4] = {VX, VY, VZ, VW};
+std::vector<DC> m4_constraints() {
+  std::vector<DC> r;
+  for (int i = 0; i < 4; i++)
+    for (int j = 0; j < 4; j++)
+      if (i != j)
+        for (long c : {1L, 5L}) r.push_back({i, j, c});
+  return r;
+}
+std::unique_ptr<DomBox> m4_build(const std::vector<DC> &all, const std::vector<int> &idx) {
+  std::unique_ptr<DomBox> d = DOM->make_top();
+  for (int k : idx) {
+    Op o;
+    o.kind = O_ASSUME;
+    o.c = cst({{1, M4V[all[k].i]}, {-1, M4V[all[k].j]}}, -all[k].c, C_LEQ);
+    d->apply(o, nullptr);
+    n_ops++;
+  }
+  return d;
+}
+std::string m4_str(const std::vector<DC> &all, const std::vector<int> &idx) {
+  std::string s = "{";
+  for (int k : idx) s += std::string(var_name(M4V[all[k].i])) + "-" + var_name(M4V[all[k].j]) + "<=" + std::to_string(all[k].c) + " ";
+  return s + "}";
+}
+void m4_check(const std::vector<DC> &all, const std::vector<int> &a, const std::vector<int> &b, const std::string &spec) {
+  vp::set_case(spec);
+  n_cases++;
+  const long INF = 1000000;
+  long d[4][4];
+  for (int i = 0; i < 4; i++)
+    for (int j = 0; j < 4; j++) d[i][j] = i == j ? 0 : INF;
+  for (auto *v : {&a, &b})
+    for (int k : *v) d[all[k].i][all[k].j] = std::min(d[all[k].i][all[k].j], all[k].c);
+  for (int k = 0; k < 4; k++)
+    for (int i = 0; i < 4; i++)
+      for (int j = 0; j < 4; j++)
+        if (d[i][k] < INF && d[k][j] < INF) d[i][j] = std::min(d[i][j], d[i][k] + d[k][j]);
+  bool unsat = false;
+  for (int i = 0; i < 4; i++)
+    if (d[i][i] < 0) unsat = true;
+  try {
+    std::unique_ptr<DomBox> A = m4_build(all, a), B = m4_build(all, b);
+    Op o;
+    o.kind = O_MEET;
+    A->apply(o, B.get());
+    n_ops++;
+    std::string what = m4_str(all, a) + " meet " + m4_str(all, b) + " = " + A->print();
+    if (A->is_bottom() != unsat) {
+      report(unsat ? "bottom:unsat-not-detected" : "bottom:satisfiable-but-bottom", spec, what);
+      return;
+    }
+    if (unsat) return;
+    n_nonbottom++;
+    for (int i = 0; i < 4; i++)
+      for (int j = 0; j < 4; j++) {
+        if (i == j) continue;
+        n_queries++;
+        if (d[i][j] < INF) {
+          LinCst implied = cst({{1, M4V[i]}, {-1, M4V[j]}}, -d[i][j], C_LEQ);
+          if (!A->entails(implied)) { report("entails:incomplete-no", spec, what + " does not entail the implied " + implied.str()); return; }
+          LinCst stronger = cst({{1, M4V[i]}, {-1, M4V[j]}}, -(d[i][j] - 1), C_LEQ);
+          if (A->entails(stronger)) { report("entails:unsound-yes", spec, what + " entails " + stronger.str() + " which is not implied"); return; }
+        } else {
+          LinCst any = cst({{1, M4V[i]}, {-1, M4V[j]}}, -50, C_LEQ);
+          if (A->entails(any)) { report("entails:unsound-yes", spec, what + " entails " + any.str() + " although the difference is unbounded"); return; }
+        }
+      }
+  } catch (std::runtime_error &e) {
+    report("abort", spec, e.what());
+  }
+}
+void run_meet4(bool th, const std::string &only_spec) {
+  CONTEXT = "meet4";
+  std::vector<DC> all = m4_constraints();
+  int n = (int)all.size();
+  if (!only_spec.empty()) { // replay: m4|dom|cfg|a.a|b.b.b
+    auto f = vp::split(only_spec, '|');
+    std::vector<int> a, b;
+    for (auto &t : vp::split(f[3], '.')) a.push_back(atoi(t.c_str()));
+    for (auto &t : vp::split(f[4], '.')) b.push_back(atoi(t.c_str()));
+    m4_check(all, a, b, only_spec);
+    return;
+  }
+  uint64_t unit = 0;
+  auto spec = [&](const std::vector<int> &a, const std::vector<int> &b) {
+    std::string s = "m4|" + DOMNAME + "|" + CFGNAME + "|";
+    for (size_t i = 0; i < a.size(); i++) s += (i ? "." : "") + std::to_string(a[i]);
+    s += "|";
+    for (size_t i = 0; i < b.size(); i++) s += (i ? "." : "") + std::to_string(b[i]);
+    return s;
+  };
+  // (1 constraint) meet (3 constraints), both orders
+  for (int a = 0; a < n; a++) {
+    if (vp::past_deadline()) { vp::incomplete(DOMNAME + " " + CFGNAME + " meet4"); return; }
+    for (int b1 = 0; b1 < n; b1++)
+      for (int b2 = b1 + 1; b2 < n; b2++)
+        for (int b3 = b2 + 1; b3 < n; b3++) {
+          if (!vp::mine(unit++)) continue;
+          m4_check(all, {a}, {b1, b2, b3}, spec({a}, {b1, b2, b3}));
+          m4_check(all, {b1, b2, b3}, {a}, spec({b1, b2, b3}, {a}));
+        }
+  }
+  // (2 constraints) meet (2 constraints)
+  if (th)
+    for (int a1 = 0; a1 < n; a1++)
+      for (int a2 = a1 + 1; a2 < n; a2++) {
+        if (vp::past_deadline()) { vp::incomplete(DOMNAME + " " + CFGNAME + " meet4 pairs"); return; }
+        for (int b1 = 0; b1 < n; b1++)
+          for (int b2 = b1 + 1; b2 < n; b2++) {
+            if (!vp::mine(unit++)) continue;
+            m4_check(all, {a1, a2}, {b1, b2}, spec({a1, a2}, {b1, b2}));
+          }
+      }
+}
+
 int main(int argc, char **argv) {
   vp::parse_args(argc, argv);
   vp::install_crash_handler();
@@ -382,7 +503,7 @@ int main(int argc, char **argv) {
   if (!rp.empty()) {
     rf = vp::split(rp, '|');
     only = rf[1];
-    mode = rf[0] == "lift" ? "lifting" : "exact";
+    mode = rf[0] == "lift" ? "lifting" : (rf[0] == "m4" ? "meet4" : "exact");
     vp::args().nslices = 1;
     vp::args().slice = 0;
   }
@@ -391,7 +512,15 @@ int main(int argc, char **argv) {
     DOM = &e;
     DOMNAME = e.name;
     const std::vector<Config> &cfgs = th ? e.configs_thorough : e.configs_quick;
-    if (mode == "exact") {
+    if (mode == "meet4") {
+      if (!(e.caps & (CAP_EXACT_ZONE | CAP_EXACT_OCT))) continue;
+      for (auto &cfg : cfgs) {
+        if (!rp.empty() && cfg.name != rf[2]) continue;
+        apply_config(cfg);
+        CFGNAME = cfg.name;
+        run_meet4(th, rp);
+      }
+    } else if (mode == "exact") {
       if (!(e.caps & (CAP_EXACT_INT | CAP_EXACT_ZONE | CAP_EXACT_OCT))) continue;
       Lang L = (e.caps & CAP_EXACT_OCT) ? L_OCT : (e.caps & CAP_EXACT_ZONE) ? L_ZONE : L_INT;
       Lng g = make_lang(L, 2);
